@@ -1,5 +1,6 @@
 #!/bin/bash
-# usage: evalseed.sh <prop id> <variant a|b> <demo package dir> <check ids...>
+# usage: [PHASE=A|B] evalseed.sh <prop id> <variant a|b> <demo package dir> <check ids...>
+# (PHASE=A: only the scratch-worktree confirmation; PHASE=B: only the checks against /repo)
 # Confirms a seeded change in a scratch worktree (applies, suite at baseline, demo fails with /
 # passes without), then applies it to /repo, runs the given checks (quick) and undoes it.
 set -u
@@ -8,13 +9,14 @@ src=/tmp/${SEEDPFX:-seed}_${id}_out/$v
 out=/verif/seeded/${id}${v}
 export GOFLAGS=-mod=mod GOPROXY=off GOSUMDB=off GOTOOLCHAIN=local
 wt=/tmp/evalwt_${id}${v}
+res() { echo "$1" | tee -a $out/eval.log; }
+if [ "${PHASE:-AB}" != "B" ]; then
 git -C /repo worktree remove --force $wt 2>/dev/null
 git -C /repo worktree add -q --detach $wt HEAD || exit 2
 mkdir -p $out
 cp $src/patch.diff $out/patch.diff
 cp $src/zz_seed_demo_test.go $out/zz_seed_demo_test.go
 cp $src/notes.md $out/notes.md 2>/dev/null
-res() { echo "$1" | tee -a $out/eval.log; }
 : > $out/eval.log
 cd $wt
 git apply --check $src/patch.diff || { res "PATCH-DOES-NOT-APPLY"; git -C /repo worktree remove --force $wt; exit 2; }
@@ -29,6 +31,8 @@ res "demo_unchanged_exit=$d0 demo_patched_exit=$d1 build_exit=$b suite_failures=
 grep '^--- FAIL' $out/suite_fail.log | sort -u | tr '\n' ' ' | tee -a $out/eval.log; echo | tee -a $out/eval.log
 cd /
 git -C /repo worktree remove --force $wt
+fi
+[ "${PHASE:-AB}" = "A" ] && exit 0
 # run checks against /repo with the patch applied
 if [ -n "$(git -C /repo status --porcelain)" ]; then res "REPO-NOT-CLEAN"; exit 2; fi
 git -C /repo apply $src/patch.diff || { res "APPLY-TO-REPO-FAILED"; exit 2; }
